@@ -5,11 +5,16 @@ SOCK = "self._channel.stream.sock"
 # everything a message exchange on this connection may touch (frame of the I/O paths)
 CONN_IO_OK = ["self._send_queue", "self._sendlock.held", SOCK + ".outbuf", SOCK + ".inbuf", "self._seqcounter.nxt",
               "self._local_objects._dict", "self._request_callbacks", "self._closed", "self._last_traceback"]
-CONN_IO = CONN_IO_OK + [SOCK, SOCK + ".shut_attempted", SOCK + ".closed", SOCK + ".failed"]
+# ... plus, when the connection goes down (transport failure, or the peer's close request was served): the teardown
+TEARDOWN = ["self._proxy_cache._dict", "self._netref_classes_cache", "self._remote_root", "self._local_root", "self._HANDLERS"]
+CONN_IO_DEAD = CONN_IO_OK + [SOCK, SOCK + ".shut_attempted", SOCK + ".closed", SOCK + ".failed"]
+CONN_IO = CONN_IO_DEAD + TEARDOWN
 # an exceptional exit: either the transport is still open (same socket object) or it died and the stream is closed
 MAYBE_DEAD = [{"label": "transport open", "sets": {"self._channel.stream.sock": "old(self._channel.stream.sock)"},
                "modifies": CONN_IO_OK},
-              {"label": "transport died", "sets": {"self._channel.stream.sock": "ClosedFile"}, "modifies": CONN_IO}]
+              {"label": "transport died", "sets": {"self._channel.stream.sock": "ClosedFile"}, "modifies": CONN_IO_DEAD}]
+# ... or, on paths that dispatch incoming messages, the whole connection went down (the peer's close request)
+MAYBE_DOWN = [MAYBE_DEAD[0], {"label": "connection down", "sets": {"self._channel.stream.sock": "ClosedFile"}, "modifies": CONN_IO}]
 OPEN = [SOCK + " is not ClosedFile", "not %s.failed" % SOCK]
 P = ["C08", "C12", "C01", "C19"]
 
@@ -126,12 +131,21 @@ def register_dispatch(S):
                outcomes=[
                    {"label": "unknown handler", "raise": "KeyError", "when": ["not known_handler(handler)"]},
                    {"label": "not callable that way", "raise": "TypeError"},
-                   {"label": "returns", "when": ["known_handler(handler)"], "events": [("HandlerRun", "handler", "args")],
-                    "modifies": ["conn._closed", "conn._last_traceback"],
-                    "assume": ["implies(not is_close_handler(handler), conn._closed == old(conn._closed))"]},
-                   {"label": "raises", "raise": "*", "when": ["known_handler(handler)"], "events": [("HandlerRun", "handler", "args")],
-                    "modifies": ["conn._closed", "conn._last_traceback"],
-                    "assume": ["implies(not is_close_handler(handler), conn._closed == old(conn._closed))"]},
+                   {"label": "returns", "when": ["known_handler(handler)", "not is_close_handler(handler)"],
+                    "events": [("HandlerRun", "handler", "args")],
+                    "modifies": ["conn._last_traceback", "conn._local_objects._dict"]},
+                   {"label": "raises", "raise": "*", "when": ["known_handler(handler)", "not is_close_handler(handler)"],
+                    "events": [("HandlerRun", "handler", "args")],
+                    "modifies": ["conn._last_traceback", "conn._local_objects._dict"]},
+                   # the peer's close request: Connection._handle_close -> _cleanup (its contract: closed, clean, hook once)
+                   {"label": "close handler", "when": ["is_close_handler(handler)"], "events": [("HandlerRun", "handler", "args")],
+                    "sets": {"conn._channel.stream.sock": "ClosedFile"},
+                    "modifies": ["conn._closed", "conn._request_callbacks", "conn._local_objects._dict", "conn._proxy_cache._dict",
+                                 "conn._netref_classes_cache", "conn._last_traceback", "conn._remote_root", "conn._local_root",
+                                 "conn._HANDLERS"],
+                    "assume": ["conn._closed", "isnone(conn._local_root)", "dict_empty(conn._request_callbacks)",
+                               "dict_empty(conn._local_objects._dict)", "dict_empty(conn._proxy_cache._dict)",
+                               "dict_empty(conn._netref_classes_cache)"]},
                ])
     QUIET = {"self._sendlock.held": "False", "self._send_queue.items": "nil()"}     # not inside a send
     ONE_REPLY = ("n_callees('_send') == 1 and same(callee_arg('_send', 0, 'seq'), seq) and "
@@ -140,23 +154,29 @@ def register_dispatch(S):
                abstract_calls={"self._HANDLERS[handler]": "handler_run", "logger.debug": "log"},
                init=QUIET,
                requires=["plain(seq)", "sized(seq)", "plain(raw_args)", "haskey(self._config, 'logger')",
+                         "not self._closed", "not isnone(self._local_root)",
                          "haskey(self._config, 'propagate_SystemExit_locally')",
                          "haskey(self._config, 'propagate_KeyboardInterrupt_locally')"] + OPEN,
-               ensures={"exactly_one_response_with_the_requests_number": (ONE_REPLY, P8),
+               ensures={"quiescent_after": ("isnil(self._send_queue.items) and not self._sendlock.held and "
+                                            "implies(not self._closed, not isnone(self._local_root))", ["C11", "C08", "C12"]),
+                        "exactly_one_response_with_the_requests_number": (ONE_REPLY, P8),
                         "executed_at_most_once": ("n_ev('HandlerRun') <= 1", P8),
                         "result_goes_into_a_reply": ("implies(same(callee_arg('_send', 0, 'msg'), MSG_REPLY), "
                                                      "n_ev('HandlerRun') == 1 and n_callees('_box') == 1 and "
                                                      "same(callee_arg('_send', 0, 'args'), callee_result('_box', 0)))", P8)},
                raises={
-                   "EOFError": {"state": [ONE_REPLY, "n_ev('HandlerRun') <= 1"], "props": P8 + ["C11"],
+                   "EOFError": {"state": [ONE_REPLY, "n_ev('HandlerRun') <= 1", "not self._sendlock.held",
+                                          "implies(not self._closed, not isnone(self._local_root))"], "props": P8 + ["C11"],
                                 "sets": {"self._channel.stream.sock": "ClosedFile"},
-                                "modifies": ["self._send_queue", "self._sendlock.held", "self._closed", "self._last_traceback",
-                                             SOCK, SOCK + ".outbuf", SOCK + ".inbuf", SOCK + ".shut_attempted", SOCK + ".closed",
-                                             SOCK + ".failed", "self._local_objects._dict"]},
+                                "modifies": CONN_IO},
                    "SystemExit": {"only_when": "truthy(self._config['propagate_SystemExit_locally'])",
-                                  "state": ["n_ev('HandlerRun') <= 1", "n_callees('_send') == 0"], "props": P8},
+                                  "state": ["n_ev('HandlerRun') <= 1", "n_callees('_send') == 0", "not self._sendlock.held",
+                                            "implies(not self._closed, not isnone(self._local_root))"], "props": P8,
+                                  "variants": MAYBE_DOWN},
                    "KeyboardInterrupt": {"only_when": "truthy(self._config['propagate_KeyboardInterrupt_locally'])",
-                                         "state": ["n_ev('HandlerRun') <= 1", "n_callees('_send') == 0"], "props": P8},
+                                         "state": ["n_ev('HandlerRun') <= 1", "n_callees('_send') == 0", "not self._sendlock.held",
+                                                   "implies(not self._closed, not isnone(self._local_root))"], "props": P8,
+                                         "variants": MAYBE_DOWN},
                },
                modifies=["self._send_queue", "self._sendlock.held", SOCK + ".outbuf", SOCK + ".inbuf", "self._closed",
                          "self._last_traceback", "self._local_objects._dict"])
@@ -187,11 +207,13 @@ def register_requests(S):
     QUIET = {"self._sendlock.held": "False", "self._send_queue.items": "nil()"}
     # ---- incoming: one message, routed by its kind ------------------------------------------------------------
     S.contract(F + "_dispatch", params={"self": "obj:Connection", "data": "val"}, init=QUIET,
-               requires=["isbytes(data)", "haskey(self._config, 'logger')",
+               requires=["isbytes(data)", "haskey(self._config, 'logger')", "not self._closed", "not isnone(self._local_root)",
                          "haskey(self._config, 'propagate_SystemExit_locally')",
                          "haskey(self._config, 'propagate_KeyboardInterrupt_locally')"] + OPEN,
                calls={"load": {"behaviour": "safety"}},
-               ensures={"routed_by_kind": (
+               ensures={"quiescent_after": ("isnil(self._send_queue.items) and not self._sendlock.held and "
+                                            "implies(not self._closed, not isnone(self._local_root))", ["C11", "C08", "C12"]),
+                        "routed_by_kind": (
                    "n_events() == 1 + n_callees('load') + n_callees('_unbox') + n_callees('_unbox_exc') and "
                    "n_callees('_dispatch_request') + n_callees('_seq_request_callback') == 1", P8),
                    "request_layout": (
@@ -211,8 +233,9 @@ def register_requests(S):
                    " head(items(callee_result('load', 0))) == MSG_EXCEPTION and "
                    " same(callee_arg('_seq_request_callback', 0, 'obj'), callee_result('_unbox_exc', 0)) and "
                    " same(callee_arg('_unbox_exc', 0, 'raw'), head(tail(tail(items(callee_result('load', 0))))))))", P8)},
-               raises={"BaseException": {"props": P8, "variants": MAYBE_DEAD, "state": [
-                   "n_callees('_dispatch_request') + n_callees('_seq_request_callback') <= 1"]}},
+               raises={"BaseException": {"props": P8, "variants": MAYBE_DOWN, "state": [
+                   "n_callees('_dispatch_request') + n_callees('_seq_request_callback') <= 1",
+                   "not self._sendlock.held", "implies(not self._closed, not isnone(self._local_root))"]}},
                modifies=CONN_IO_OK)
     # ---- outgoing: the callback is registered under a fresh number BEFORE the request is sent --------------------
     S.contract(F + "_async_request", params={"self": "obj:Connection", "handler": "val", "args": "val", "callback": "val"},
@@ -223,11 +246,12 @@ def register_requests(S):
                    requires=["plain(handler)", "sized(handler)"],
                    raises={"EOFError": {"props": ["C11", "C08"], "modifies": ["self._request_callbacks", "self._seqcounter.nxt",
                                                                               "self._local_objects._dict", "self._send_queue"],
-                                        "state": ["n_callees('_get_seq_id') == 1 and "
+                                        "state": ["not self._sendlock.held", "n_callees('_get_seq_id') == 1 and "
                                                   "not haskey(self._request_callbacks, callee_result('_get_seq_id', 0)) and "
                                                   "unchanged_except(self._request_callbacks, callee_result('_get_seq_id', 0))"]},
-                           "BaseException": {"props": ["C11"], "modifies": ["self._request_callbacks", "self._seqcounter.nxt",
-                                                                            "self._local_objects._dict", "self._send_queue"]}},
+                           "BaseException": {"props": ["C11"], "state": ["not self._sendlock.held"],
+                                             "modifies": ["self._request_callbacks", "self._seqcounter.nxt",
+                                                          "self._local_objects._dict", "self._send_queue"]}},
                    modifies=[])},
                init=QUIET, requires=OPEN + ["plain(handler)", "sized(handler)"],
                ensures={"registered_then_sent": (
@@ -239,8 +263,10 @@ def register_requests(S):
                    "callback_waits_under_that_number": (
                    "haskey(self._request_callbacks, callee_result('_get_seq_id', 0)) and "
                    "same(self._request_callbacks[callee_result('_get_seq_id', 0)], callback) and "
-                   "unchanged_except(self._request_callbacks, callee_result('_get_seq_id', 0))", P8)},
+                   "unchanged_except(self._request_callbacks, callee_result('_get_seq_id', 0))", P8),
+                   "send_lock_free": ("not self._sendlock.held", ["C11", "C12"])},
                raises={"BaseException": {"props": P8 + ["C11"], "variants": MAYBE_DEAD, "state": [
+                   "not self._sendlock.held",
                    # a failed send leaves no callback behind (for every Exception; a BaseException is not caught)
                    "implies(not exc_is(exc, 'Exception') == False, n_callees('_get_seq_id') == 1 and "
                    "not haskey(self._request_callbacks, callee_result('_get_seq_id', 0)) and "
